@@ -16,7 +16,8 @@ LEVEL_NOTE = ("theorems are about the path arithmetic of the exclusion / ignore 
               "tests); pathlib.resolve, os.walk and the working directory are observed through the CLI matrix")
 DATA = core.VERIF / "harness" / "data"
 
-CFG = "dry:\n  enabled: true\n  min_duplicate_lines: 4\n"
+CFG = ("dry:\n  enabled: true\n  min_duplicate_lines: 4\n"
+       "file-placement:\n  directories:\n    src:\n      allow:\n        - \".*\\\\.py$\"\n    lib/helpers:\n      deny:\n        - pattern: \".*\\\\.ts$\"\n          reason: \"no ts here\"\n")
 
 
 def project_files():
@@ -68,11 +69,17 @@ def impl_case(args) -> dict:
             p.write_text(text)
         other = Path(root) / f"w{idx}" / "elsewhere"
         other.mkdir(parents=True, exist_ok=True)
-        spellings = [("dot", proj, "."), ("abs", proj, str(proj)), ("rel-from-parent", base, "proj"), ("abs-from-elsewhere", other, str(proj)),
-                     ("rel-from-elsewhere", other, os.path.relpath(proj, other)), ("subdir-dotdot", proj / "src", "..")]
+        spellings = [("dot", proj, ".", [], []), ("abs", proj, str(proj), [], []), ("rel-from-parent", base, "proj", [], []),
+                     ("abs-from-elsewhere", other, str(proj), [], []), ("rel-from-elsewhere", other, os.path.relpath(proj, other), [], []),
+                     ("subdir-dotdot", proj / "src", "..", [], []),
+                     ("abs-parallel", proj, str(proj), [], ["--parallel"]), ("rel-from-parent-parallel", base, "proj", [], ["--parallel"]),
+                     ("global-config-abs", proj, str(proj), ["--config", ".thailint.yaml"], []),
+                     ("global-config-dot", proj, ".", ["--config", ".thailint.yaml"], [])]
         for c in cmds:
-            for label, cwd, target in spellings:
-                code, stdout = core.run_cli([c, "--format", "json", target], cwd=cwd)
+            for label, cwd, target, pre, post in spellings:
+                if post and c in ("file-placement",):
+                    continue     # no --parallel option on this command
+                code, stdout = core.run_cli(pre + [c, "--format", "json"] + post + [target], cwd=cwd)
                 vs = core.violations_json(stdout)
                 if vs is None:
                     out["runs"].append({"cmd": c, "spelling": label, "exit": code, "vs": None, "raw": stdout[:200]})
@@ -80,6 +87,8 @@ def impl_case(args) -> dict:
                 canon = []
                 for v in vs:
                     ab = Path(v["file_path"]) if os.path.isabs(v["file_path"]) else (cwd / v["file_path"])
+                    if not ab.exists() and (proj / v["file_path"]).exists():
+                        ab = proj / v["file_path"]      # some linters print the project-relative path whatever the cwd
                     try:
                         relp = str(ab.resolve().relative_to(proj.resolve()))
                     except ValueError:
@@ -88,9 +97,9 @@ def impl_case(args) -> dict:
                     for pre in (str(proj.resolve()) + "/", str(proj) + "/"):
                         msg = msg.replace(pre, "")
                     # messages may quote the path as spelled relative to the cwd: normalise those too
-                    for pre in ({"rel-from-parent": "proj/", "rel-from-elsewhere": os.path.relpath(proj, other) + "/", "subdir-dotdot": "../"}.get(label),):
-                        if pre:
-                            msg = msg.replace(pre, "")
+                    for pfx in ({"rel-from-parent": "proj/", "rel-from-parent-parallel": "proj/", "rel-from-elsewhere": os.path.relpath(proj, other) + "/", "subdir-dotdot": "../"}.get(label),):
+                        if pfx:
+                            msg = msg.replace(pfx, "")
                     canon.append([relp, v["rule_id"], v["line"], v["column"], msg])
                 out["runs"].append({"cmd": c, "spelling": label, "exit": code, "vs": sorted(canon)})
     except Exception as exc:  # noqa: BLE001
@@ -168,7 +177,7 @@ def run(tier: str, seed: int, st: core.ProofStatus) -> core.Result:
     root = core.scratch_dir("c09")
     work = []
     for i, p in enumerate(ps):
-        cs = cmds if (tier == "thorough" or i == 0) else sorted(set(rng.sample(cmds, 7) + ["magic-numbers", "unwrap-abuse", "dry"]))
+        cs = cmds if (tier == "thorough" or i == 0) else sorted(set(rng.sample(cmds, 6) + ["magic-numbers", "unwrap-abuse", "dry", "file-placement"]))
         work.append((i, p, cs, str(root)))
     try:
         impls = core.pmap(impl_case, work, procs=16)
